@@ -18,7 +18,8 @@ ASSUMPTIONS = ["equality is NaN-aware; where the bulk read reports None the sing
                "ids listed twice in a table (ET meter_e_total_exp/imp: float and 8-byte variants) resolve to the later definition in "
                "both paths"]
 MUST = ["ids_compared", "calculated_ids_compared", "bitmap_ids_compared", "four_byte_meter_ids_compared", "none_in_bulk",
-        "history_battery_appears", "history_block_refused_later", "history_device_info_rerun", "configs_run"]
+        "history_battery_appears", "history_block_refused_later", "history_device_info_rerun", "history_block_served_later",
+        "history_battery_disappears", "configs_run"]
 EXHAUSTIVE = {"quick": False, "thorough": False}
 
 
@@ -84,11 +85,46 @@ def run_cfg(cfg, part, port, seed, history=None):
     async def flow(loop):
         inv = models.family_cls(g, fam)("inv0", port, 0, 1, 0)
         await inv.read_device_info()
+        if history == "block_served_later" and fam in ("ET", "DT"):
+            # single reads of listed ids are refused first (battery / meter registers not available yet), later they are served
+            blk, rep = ("battery", "battery_soc") if fam == "ET" else ("meter", "meter_active_power")
+            rng = (models.ET_BLOCKS if fam == "ET" else models.DT_BLOCKS)[blk]
+            sim.refused += rng
+            if fam == "ET":
+                sim.regs[35184] = 2
+            for sid in [x.id_ for x in inv.sensors() if rng[0][0] <= x.offset <= rng[0][1]][:4]:
+                try:
+                    await inv.read_sensor(sid)
+                except ValueError:
+                    pass
+            sim.refused = [r for r in sim.refused if r not in rng]
+            part.count("history_block_served_later")
         try:
             await inv.read_runtime_data()        # let the capability fallbacks settle
         except g.exceptions.RequestRejectedException:
             pass
+        if fam != "ES":
+            # ids that exist both as a setting and as a sensor (different registers): a setting read first must not redirect the sensor read
+            for sid in ("work_mode", "battery_modules"):
+                try:
+                    await inv.read_setting(sid)
+                except (ValueError, g.InverterError):
+                    pass
         await compare_all(g, inv, part, fam, tag, case, "steady")
+        if history == "battery_disappears" and fam == "ET" and cfg["battery"]:
+            listed = [x.id_ for x in inv.sensors()]
+            sim.regs[35184] = 0
+            for sid in listed:
+                if not sid.startswith("battery"):
+                    continue
+                try:
+                    await inv.read_sensor(sid)
+                except ValueError:
+                    pass
+                except Exception as e:      # noqa
+                    part.violate(f"C16/{fam}/raises/{type(e).__name__}", f"{tag} [battery disappeared]: read_sensor('{sid}') (listed before) raised {type(e).__name__}: {str(e)[:60]}", case)
+                    break
+            part.count("history_battery_disappears")
         if history == "battery_appears" and fam == "ET":
             sim.regs[35184] = 0
             await inv.read_runtime_data()
@@ -151,7 +187,8 @@ def run_shard(spec):
         if i % spec["shards"] != spec["shard"]:
             continue
         port = 8899 if cfg["family"] == "ES" else (502 if i % 3 == 0 else 8899)
-        hist = [None, "battery_appears", "block_refused_later", "device_info_rerun"][i % 4] if cfg["family"] != "ES" else None
+        hist = [None, "battery_appears", "block_refused_later", "device_info_rerun", "block_served_later", "battery_disappears"][i % 6] \
+            if cfg["family"] != "ES" else None
         run_cfg(cfg, part, port, f"{spec['seed']}:C16:{i}", hist)
     return part
 
